@@ -383,6 +383,28 @@ static void summary_statistics(unsigned long long& unit)
 	}
 }
 
+// ---- element-wise equality means operator== of the elements: +0 equals -0, NaN equals nothing ------------------------------------------
+static void special_values()
+{
+	const double nan = std::nan(""), inf = INFINITY;
+	std::vector<std::vector<double>> lists = {{0.0}, {-0.0}, {nan}, {0.0, 1.0}, {-0.0, 1.0}, {1.0, nan}, {inf}, {-inf}, {inf, -0.0, 2.5}, {inf, 0.0, 2.5}, {}};
+	for(size_t i = 0; i < lists.size(); i++)
+		for(size_t j = 0; j < lists.size(); j++)
+		{
+			bool want = lists[i].size() == lists[j].size();
+			for(size_t k = 0; want && k < lists[i].size(); k++) want = lists[i][k] == lists[j][k];
+			g_cases++;
+			std::string key = "double,a=" + mc::decv(lists[i]) + ",b=" + mc::decv(lists[j]);
+			if(Lists_Equal(lists[i], lists[j]) != want) fail("lists", key, "lists_equal_not_elementwise", std::string("Lists_Equal = ") + (want ? "false" : "true") + " but the element-wise comparison says " + (want ? "true" : "false"));
+			std::vector<std::vector<double>> ni{lists[i], {1.5}}, nj{lists[j], {1.5}};
+			if(Lists_Equal(ni, nj) != want) fail("lists", key + ",nested", "lists_equal_not_elementwise", "nested Lists_Equal disagrees with the element-wise comparison");
+		}
+	std::vector<double> v{1.0, -0.0, nan, 0.0, inf};
+	g_cases++;
+	if(!List_Contains(v, 0.0) || !List_Contains(v, -0.0) || List_Contains(v, nan) || !List_Contains(v, inf)) fail("lists", "special_values", "list_contains_not_elementwise", "List_Contains disagrees with operator== on 0.0/-0.0/NaN/inf");
+	if(Find_Indices(v, 0.0) != std::vector<int>{1, 3} || Find_Indices(v, -0.0) != std::vector<int>{1, 3} || !Find_Indices(v, nan).empty()) fail("lists", "special_values", "find_indices_not_elementwise", "Find_Indices disagrees with operator== on 0.0/-0.0/NaN");
+}
+
 // ---- call histories: the helpers are functions of their arguments only ----------------------------------------------------------------
 static void histories(unsigned long long& unit)
 {
@@ -431,6 +453,7 @@ int main(int argc, char** argv)
 		spaces(unit);
 		closest(unit);
 		summary_statistics(unit);
+		if(mc::shard0()) special_values();
 		histories(unit);
 	}
 	mc::count("evaluations", g_cases);
